@@ -80,11 +80,11 @@ fn multiset_diff(expected: &str, got: &str) -> (String, String) {
     keys.sort();
     for (c, n) in keys {
         if n > 0 {
-            for _ in 0..n.min(5) {
+            for _ in 0..n {
                 missing.push(c)
             }
         } else if n < 0 {
-            for _ in 0..(-n).min(5) {
+            for _ in 0..(-n) {
                 extra.push(c)
             }
         }
@@ -171,8 +171,8 @@ fn loss_class(dom: &ODom, node: odom::Id) -> String {
                                 stack.push(c);
                             }
                         }
-                        if wsum < span {
-                            table_hit = Some("in-spanning-cell-narrower-than-its-colspan".into());
+                        if wsum < span || spanned_columns_have_no_own_text(dom, child) {
+                            table_hit = Some("in-spanning-cell-over-columns-without-own-text".into());
                         }
                     }
                 }
@@ -185,82 +185,121 @@ fn loss_class(dom: &ODom, node: odom::Id) -> String {
     list_hit.or(table_hit).unwrap_or_else(|| "in-flow".into())
 }
 
-/// Node of the first visible T-character at which expected and got diverge.
-fn first_lost_node(dom: &ODom, v_t: &str, o_t: &str) -> Option<odom::Id> {
-    let vs: Vec<odom::VChar> = odom::visible_stream(dom, &|_| false)
-        .into_iter()
-        .filter(|v| in_t(v.c))
-        .collect();
-    let (pos, _, _) = first_diff(v_t, o_t);
-    vs.get(pos).map(|v| v.node)
+/// For a spanning cell: do all the columns it spans lack a non-spanning cell
+/// with visible text (in any row of its table)?  Such columns get their size
+/// only from the spanning cell's share, which the allocation can round to 0.
+pub fn spanned_columns_have_no_own_text(dom: &ODom, cell: odom::Id) -> bool {
+    let span_of = |c: odom::Id| -> usize {
+        dom.attr(c, "colspan")
+            .and_then(|v| v.trim().parse::<usize>().ok())
+            .unwrap_or(1)
+            .clamp(1, 1000)
+    };
+    let Some(tr) = dom.parent(cell) else { return false };
+    // the table: nearest table ancestor
+    let Some(table) = dom.ancestors(cell).into_iter().find(|a| dom.html_name(*a) == Some("table")) else {
+        return false;
+    };
+    // position of the cell
+    let mut start = 0;
+    for &c in dom.children(tr) {
+        if c == cell {
+            break;
+        }
+        if matches!(dom.html_name(c), Some("td") | Some("th")) {
+            start += span_of(c);
+        }
+    }
+    let end = start + span_of(cell);
+    // all rows of this table (not of nested tables)
+    let mut rows = Vec::new();
+    let mut stack = vec![table];
+    while let Some(x) = stack.pop() {
+        for &c in dom.children(x) {
+            match dom.html_name(c) {
+                Some("tr") => rows.push(c),
+                Some("thead") | Some("tbody") | Some("tfoot") => stack.push(c),
+                _ => {}
+            }
+        }
+    }
+    let has_text = |c: odom::Id| -> bool {
+        let mut st = vec![c];
+        while let Some(y) = st.pop() {
+            if let Kind::Text(t) = dom.kind(y) {
+                if t.chars().any(odom::is_visible_char) {
+                    return true;
+                }
+            }
+            for &k in dom.children(y) {
+                st.push(k);
+            }
+        }
+        false
+    };
+    for r in rows {
+        let mut pos = 0;
+        for &c in dom.children(r) {
+            if !matches!(dom.html_name(c), Some("td") | Some("th")) {
+                continue;
+            }
+            let sp = span_of(c);
+            if sp == 1 && pos >= start && pos < end && has_text(c) {
+                return false;
+            }
+            pos += sp;
+        }
+    }
+    true
 }
 
-/// For table documents (no positional alignment): the node of the first
-/// token of the document that does not occur in the output at all.
-fn first_absent_token_node(dom: &ODom, o_t: &str, missing: &str) -> Option<odom::Id> {
-    let vs: Vec<odom::VChar> = odom::visible_stream(dom, &|_| false)
-        .into_iter()
-        .filter(|v| in_t(v.c))
-        .collect();
-    // text nodes whose characters are all among the missing ones, preferring
-    // nodes in a structurally special place
-    {
-        let miss = multiset(missing);
-        let mut cands: Vec<odom::Id> = Vec::new();
-        let mut i = 0;
-        while i < vs.len() {
-            let mut j = i;
-            while j < vs.len() && vs[j].node == vs[i].node {
-                j += 1;
-            }
-            let t: String = vs[i..j].iter().map(|v| v.c).collect();
-            let m = multiset(&t);
-            if m.iter().all(|(c, n)| miss.get(c).copied().unwrap_or(0) >= *n) {
-                cands.push(vs[i].node);
-            }
-            i = j;
-        }
-        if let Some(n) = cands.iter().find(|n| {
-            let c = loss_class(dom, **n);
-            c.starts_with("stray") || c == "in-caption" || c.starts_with("in-spanning")
-        }) {
-            return Some(*n);
-        }
-        if cands.len() == 1 {
-            return Some(cands[0]);
-        }
-    }
-    // tokens start with an upper-case letter
+/// Locate the lost text and classify the place it lives in.  `stream` is the
+/// expected character stream (already filtered the way `expected`/`got` are).
+fn classify_loss(dom: &ODom, stream: &[odom::VChar], expected: &str, got: &str, sequential: bool) -> String {
+    let (missing, _) = multiset_diff(expected, got);
+    let miss = multiset(&missing);
+    // nodes whose characters are all among the missing ones
+    let mut cands: Vec<odom::Id> = Vec::new();
     let mut i = 0;
-    while i < vs.len() {
-        if vs[i].c.is_ascii_uppercase() {
-            let mut j = i + 1;
-            while j < vs.len() && !vs[j].c.is_ascii_uppercase() && vs[j].node == vs[i].node {
-                j += 1;
-            }
-            let tok: String = vs[i..j].iter().map(|v| v.c).collect();
-            if tok.chars().count() >= 4 && !o_t.contains(&tok[..tok.char_indices().nth(4).map(|x| x.0).unwrap_or(tok.len())]) {
-                return Some(vs[i].node);
-            }
-            i = j;
-        } else {
-            i += 1;
-        }
-    }
-    // fallback: the first text node whose whole T-text does not occur
-    let mut i = 0;
-    while i < vs.len() {
+    while i < stream.len() {
         let mut j = i;
-        while j < vs.len() && vs[j].node == vs[i].node {
+        while j < stream.len() && stream[j].node == stream[i].node {
             j += 1;
         }
-        let t: String = vs[i..j].iter().map(|v| v.c).collect();
-        if !o_t.contains(&t) {
-            return Some(vs[i].node);
+        let t: String = stream[i..j].iter().map(|v| v.c).collect();
+        let m = multiset(&t);
+        if m.iter().all(|(c, n)| miss.get(c).copied().unwrap_or(0) >= *n) {
+            cands.push(stream[i].node);
         }
         i = j;
     }
-    None
+    let special = |n: &odom::Id| {
+        let c = loss_class(dom, *n);
+        c.starts_with("stray") || c == "in-caption" || c.starts_with("in-spanning")
+    };
+    if let Some(n) = cands.iter().find(|n| special(n)) {
+        return loss_class(dom, *n);
+    }
+    if cands.len() == 1 {
+        return loss_class(dom, cands[0]);
+    }
+    if sequential {
+        let (pos, _, _) = first_diff(expected, got);
+        if let Some(v) = stream.get(pos) {
+            return loss_class(dom, v.node);
+        }
+    }
+    if let Some(n) = cands.first() {
+        return loss_class(dom, *n);
+    }
+    "unlocated".into()
+}
+
+fn t_stream(dom: &ODom) -> Vec<odom::VChar> {
+    odom::visible_stream(dom, &|_| false)
+        .into_iter()
+        .filter(|v| in_t(v.c))
+        .collect()
 }
 
 /// Visible text of each table cell (its own text, excluding nested tables).
@@ -360,10 +399,7 @@ pub fn check_preserved(
         if o_t != v_t {
             let (missing, extra) = multiset_diff(&v_t, &o_t);
             let class = if !missing.is_empty() && extra.is_empty() {
-                match first_lost_node(dom, &v_t, &o_t) {
-                    Some(n) => format!("lost:{}", loss_class(dom, n)),
-                    None => "lost:unlocated".to_string(),
-                }
+                format!("lost:{}", classify_loss(dom, &t_stream(dom), &v_t, &o_t, true))
             } else if missing.is_empty() && !extra.is_empty() {
                 "duplicated-or-invented".to_string()
             } else if missing.is_empty() && extra.is_empty() {
@@ -378,7 +414,7 @@ pub fn check_preserved(
                     "visible text differs from the output as a sequence ({}): at visible char {} expected ..{}.. got ..{}..",
                     class, pos, ea, ga
                 ),
-                witness(input, w, cfg, json!({"missing": missing, "extra": extra, "output": truncate(output, 1500), "mutated": mutated})),
+                witness(input, w, cfg, json!({"missing": truncate(&missing, 60), "extra": truncate(&extra, 60), "output": truncate(output, 1500), "mutated": mutated})),
             );
             return;
         }
@@ -387,10 +423,7 @@ pub fn check_preserved(
         let (missing, extra) = multiset_diff(&v_t, &o_t);
         if !missing.is_empty() || !extra.is_empty() {
             let class = if !missing.is_empty() && extra.is_empty() {
-                match first_absent_token_node(dom, &o_t, &missing) {
-                    Some(n) => format!("lost:{}", loss_class(dom, n)),
-                    None => "lost:unlocated".to_string(),
-                }
+                format!("lost:{}", classify_loss(dom, &t_stream(dom), &v_t, &o_t, false))
             } else if missing.is_empty() {
                 "duplicated-or-invented".to_string()
             } else {
@@ -398,8 +431,8 @@ pub fn check_preserved(
             };
             out.violate(
                 if class.starts_with("lost:") { format!("text-{}", class) } else { format!("text:{}:table-doc", class) },
-                format!("visible text differs from the output as a multiset ({}): missing {:?} extra {:?}", class, missing, extra),
-                witness(input, w, cfg, json!({"missing": missing, "extra": extra, "output": truncate(output, 1500), "mutated": mutated})),
+                format!("visible text differs from the output as a multiset ({}): missing {:?} extra {:?}", class, truncate(&missing, 60), truncate(&extra, 60)),
+                witness(input, w, cfg, json!({"missing": truncate(&missing, 60), "extra": truncate(&extra, 60), "output": truncate(output, 1500), "mutated": mutated})),
             );
             return;
         }
@@ -441,20 +474,15 @@ pub fn check_preserved(
             let class = if missing.is_empty() && !extra.is_empty() {
                 format!("invented:{}", extra.chars().take(4).collect::<String>())
             } else if !missing.is_empty() && extra.is_empty() {
-                // locate the first lost character in the full visible stream
                 let vs = odom::visible_stream(dom, &|_| false);
-                let (pos, _, _) = first_diff(&exp, &got);
-                match vs.get(pos) {
-                    Some(v) if !(tables && !cfg.raw) => format!("lost:{}", loss_class(dom, v.node)),
-                    _ => "lost-nonT".to_string(),
-                }
+                format!("lost:{}", classify_loss(dom, &vs, &exp, &got, !(tables && !cfg.raw)))
             } else {
                 "differs".to_string()
             };
             out.violate(
                 if class.starts_with("lost:") { format!("text-{}", class) } else { format!("trivial:{}", class) },
-                format!("trivial decorator: output characters other than whitespace/borders differ from the document text: missing {:?} extra {:?}", missing, extra),
-                witness(input, w, cfg, json!({"missing": missing, "extra": extra, "output": truncate(output, 1500)})),
+                format!("trivial decorator: output characters other than whitespace/borders differ from the document text: missing {:?} extra {:?}", truncate(&missing, 60), truncate(&extra, 60)),
+                witness(input, w, cfg, json!({"missing": truncate(&missing, 60), "extra": truncate(&extra, 60), "output": truncate(output, 1500)})),
             );
         }
     }
